@@ -511,7 +511,7 @@ def _job(job):
 TIERS = {
     # base seeds, extra seeds from VERIF_SEED, cli seeds, cli languages per combination,
     # budget per generation (objects deep-copied, cpu seconds as safety net), wall deadline (s)
-    'quick': (BASE_SEEDS[:8], 1, [1], 1, (60000, 30), 30),
+    'quick': (BASE_SEEDS[:8], 1, [1], 1, (60000, 30), 75),
     'thorough': (BASE_SEEDS, 6, [1, 2, 3], 4, (400000, 240), 780),
 }
 
